@@ -80,7 +80,6 @@ def catalogue(tier: str):
         one = {'restarts': 1}
         rows += [
             ('chain2-f2', P1(shapes['chain2']), 2, dict(one), True),
-            ('and-f2', P1(shapes['and']), 2, dict(one), True),
             ('prevb-f2-broadcast', P1(shapes['prevb']), 2,
              {'preamble': [('broadcast', ['2'], ['b'],
                             [{'environment': {'X': '1'}}])], **one}, True),
@@ -159,7 +158,7 @@ def run(ctx: Ctx) -> Result:
                 'stop offered at': 'every main-loop boundary',
                 'restarts per execution': ctx.pick(
                     '1 (2 in the stop-task workflow)',
-                    '2 (1 in the wider workflows: chain2-f2*, and-f2, '
+                    '2 (1 in the wider workflows: chain2-f2*, '
                     'prevb-f2-broadcast)')},
         assumptions=ASSUME, min_states=100,
         extra_cov={'observed': dict(sorted(counts.items()))})
